@@ -1242,10 +1242,12 @@ func (t *tree) expect(expected itemType, context string) item {
 
 // unexpected complains about the token and terminates processing.
 func (t *tree) unexpected(token item, context string) {
+	// report the position of the offending token itself: the token stream may
+	// have moved past it (or ended) by the time it is found to be unexpected.
 	if token.typ == itemError {
-		t.errorf("lexical error: %v", token)
+		t.errorfAt(token, "lexical error: %v", token)
 	}
-	t.errorf("unexpected %v in %s", token, context)
+	t.errorfAt(token, "unexpected %v in %s", token, context)
 }
 
 // errorf formats the error and terminates processing.
@@ -1255,6 +1257,12 @@ func (t *tree) errorf(format string, args ...interface{}) {
 	if t.peekCount > 0 {
 		tok = t.token[t.peekCount-1]
 	}
+	t.errorfAt(tok, format, args...)
+}
+
+// errorfAt formats the error with the position of the given token and
+// terminates processing.
+func (t *tree) errorfAt(tok item, format string, args ...interface{}) {
 	t.root = nil
 	format = fmt.Sprintf("template %s:%d:%d: %s", t.name,
 		t.lex.lineNumber(tok.pos), t.lex.columnNumber(tok.pos), format)
